@@ -909,12 +909,12 @@ func (x *Exec) binTerm(st *State, op token.Token, a, b Term, pos string) Term {
 		switch op {
 		case token.EQL:
 			if isFloatSort(s) {
-				return x.eop("eq", s, SBool, a, b)
+				return x.floatEq(s, a, b)
 			}
 			return Eq(a, b)
 		case token.NEQ:
 			if isFloatSort(s) {
-				return Not(x.eop("eq", s, SBool, a, b))
+				return Not(x.floatEq(s, a, b))
 			}
 			return Ne(a, b)
 		case token.LSS:
@@ -931,6 +931,16 @@ func (x *Exec) binTerm(st *State, op token.Token, a, b Term, pos string) Term {
 	}
 	x.unsupportedf("binary op %s on sort %s at %s", op, s, pos)
 	return Term{}
+}
+
+// floatEq is Go's == on a floating-point or complex element sort: an arbitrary symmetric relation (not reflexive:
+// NaN). Symmetry is built in by construction - eq(a,b) := r(a,b) && r(b,a) for an uninterpreted r - so that no
+// quantified axiom is needed.
+func (x *Exec) floatEq(s string, a, b Term) Term {
+	if a.S == b.S {
+		return x.eop("eq", s, SBool, a, b)
+	}
+	return And(x.eop("eq", s, SBool, a, b), x.eop("eq", s, SBool, b, a))
 }
 
 func (x *Exec) eop2(op string, a, b Term) Term {
